@@ -67,10 +67,16 @@ def alts(t):
 
 
 def walk(t):
-    """All sub-terms of t (pre-order)."""
+    """All distinct sub-terms of t (pre-order).  Terms are DAGs - sub-terms are shared by
+    identity - so every shared object is visited once (tree walking is exponential)."""
     stack = [t]
+    seen = set()
     while stack:
         x = stack.pop()
+        if isinstance(x, (tuple, frozenset)):
+            if id(x) in seen:
+                continue
+            seen.add(id(x))
         if isinstance(x, tuple):
             if x and isinstance(x[0], str):
                 yield x
@@ -95,16 +101,29 @@ def find(t, pred):
     return [x for x in walk(t) if pred(x)]
 
 
+_STRIP_CACHE = {}
+
+
 def strip_sites(t):
-    """Normal form for structural comparison: drop call sites."""
-    if isinstance(t, tuple):
-        if t and t[0] == 'call':
-            return ('call', strip_sites(t[1]), strip_sites(t[2]), strip_sites(t[3]))
-        if t and t[0] == 'inst':
-            return ('inst', t[1], strip_sites(t[2]), strip_sites(t[3]))
-        return tuple(strip_sites(x) for x in t)
-    if isinstance(t, frozenset):
-        return frozenset(strip_sites(x) for x in t)
+    """Normal form for structural comparison: drop call sites (memoised by object identity: terms are DAGs)."""
+    if isinstance(t, (tuple, frozenset)):
+        hit = _STRIP_CACHE.get(id(t))
+        if hit is not None and hit[0] is t:
+            return hit[1]
+        if isinstance(t, tuple):
+            if t and t[0] == 'call':
+                r = ('call', strip_sites(t[1]), strip_sites(t[2]), strip_sites(t[3]))
+            elif t and t[0] == 'inst':
+                r = ('inst', t[1], strip_sites(t[2]), strip_sites(t[3]))
+            else:
+                r = tuple(strip_sites(x) for x in t)
+        else:
+            r = frozenset(strip_sites(x) for x in t)
+        if len(_STRIP_CACHE) > 400000:
+            _STRIP_CACHE.clear()
+        _STRIP_CACHE[id(t)] = (t, r)
+        _STRIP_CACHE[id(r)] = (r, r)
+        return r
     return t
 
 
@@ -1472,6 +1491,47 @@ class Evaluator:
         return None
 
     def decide(self, t):
+        d = self._decide(t)
+        if d is None and self.guards and not getattr(self, '_inferring', False) and t and t[0] in ('attr', 'param', 'cmp', 'unary', 'name', 'sub', 'call'):
+            # a condition already decided by an enclosing / early-exit guard (same pure term)
+            key = strip_sites(t)
+            if not contains(key, lambda x: isinstance(x, tuple) and x and (x[0] in ('inst', 'mut', 'upd') or (x[0] == 'call' and not (x[1][0] == 'name' and x[1][1] in ('hasattr', 'isinstance', 'callable', 'len'))))):
+                self._inferring = True
+                try:
+                    for _st, pol, test in reversed(self.guards):
+                        for term, val in self._infer(test, pol):
+                            if term == key:
+                                return val
+                            if term[0] == 'unary' and term[1] == 'Not' and term[2] == key:
+                                return not val
+                finally:
+                    self._inferring = False
+        return d
+
+    def _infer(self, test, pol):
+        """atomic facts (term, truth) implied by `test` having truth value `pol`"""
+        if not isinstance(test, tuple) or not test:
+            return []
+        k = test[0]
+        if k == 'unary' and test[1] == 'Not':
+            return self._infer(test[2], not pol)
+        if k == 'bool':
+            ops = list(test[2])
+            if (test[1] == 'And') == pol:
+                # all operands have value pol
+                out = []
+                for o in ops:
+                    out += self._infer(o, pol)
+                return out
+            # And is false / Or is true: if all but one operand are known to have the other value, the last one is decided
+            undecided = [o for o in ops if self._decide(o) is None]
+            others_ok = all(self._decide(o) is (not pol) for o in ops if self._decide(o) is not None)
+            if len(undecided) == 1 and others_ok:
+                return self._infer(undecided[0], pol)
+            return []
+        return [(strip_sites(test), pol)]
+
+    def _decide(self, t):
         k = t[0]
         if k == 'const':
             return bool(t[1])
